@@ -115,6 +115,8 @@ EXTRA = {
 }
 # additions made during the third round of seeded changes
 EXTRA3 = {
+ "C18": " TestC18Conc: 2-3 new type families per round are generated by 2-8 goroutines each, released together, every result judged by the same oracle, and a composite of all roots is generated afterwards in the three styles (name tables and caches left by the concurrent phase). TestC18Tools: 1-5 tools built from the same three struct types in all styles, some with properties added by builder options after the struct schema, registered one after the other: a tool names exactly its struct's JSON fields plus its own additions, keeps the schema it was registered with when other tools are built, and tools/list carries exactly that schema.",
+ "C20": " The client workload runs next to 0-5 initialised sessions that hold no listening stream (sends to them fail) and issues filtered sends.",
  "C19": " With a configured request handler the handler may lose one request with a connection error (EOF) at a drawn request kind: it passed the before-request function once and reaches no server, and nothing is sent past the function afterwards (the three logs still agree). A legacy client's first connect GET may be refused with 503 and the handshake repeated under another context: the second connect carries the second handshake's context values.",
  "C17": " The outcome pools hold every assigned 5xx code and 30 more 4xx codes individually. TestC17TCP: over real loopback TCP (net/http's keep-alive transport, 0-2 warm-up calls) the front reads each attempt completely and then closes / resets the connection before any response byte, answers 503 / 429 / 404, or serves it: the attempts counted at the server are exactly the model's (one more after every transient fate, at most MaxRetries+1, one without a retry option) and equal the observed waits + 1.",
  "C15": " A middleware kind hands a new request object (deep copy with modified arguments) to the next stage instead of mutating in place.",
